@@ -232,6 +232,13 @@ pub fn gen_tree(rng: &mut Rng, cfg: &TreeCfg) -> Tree {
                 Some(*rng.pick(&kids).path.last().unwrap())
             } else { None };
             let asn = own_asn(node.ta, &node.path, n);
+            if rng.chance(1, 9) {
+                // A listed file of a type routinator does not process, under
+                // a name that sorts anywhere among its siblings.
+                let name = format!("{}{n}.{}", rng.pick(&["a", "m", "z"][..]), rng.pick(&["tak", "spl", "txt"][..]));
+                v.objects.push(raw(&name, format!("unknown type {name}").as_bytes()));
+                continue
+            }
             let mut obj = match rng.below(8) {
                 0 | 1 | 2 => roa(&format!("o{n}.roa"), serial, asn, &v4_roa(node.ta, &node.path, n, inside), Some(24 + rng.below(3) as u8)),
                 3 => roa(&format!("o{n}.roa"), serial, asn, &v6_roa(node.ta, &node.path, n), None),
